@@ -100,7 +100,7 @@ def strict_and_keys(R, ctx):
     R.rule(rk, "for every rule, each property key accepted by configure is a key that serialize_to_properties can emit (or the rule returns "
                "its stored original properties): otherwise serialize+read loses the property and two different configurations serialize alike")
     impls = rule_impls(lib)
-    R.require(rs, "floor:rules", len(impls) >= 34, "", "%d RuleConfiguration impls" % len(impls))
+    R.require(rs, "floor:rules", len(impls) >= 30, "", "%d RuleConfiguration impls" % len(impls))
     n_keys = 0
     for selfs, items in sorted(impls):
         conf = lib.fns.get(items.get("configure"))
@@ -125,7 +125,7 @@ def strict_and_keys(R, ctx):
             ok = "*" in skeys or k in skeys
             R.ob(rk, "%s|%s" % (short, k), ok, ctx.where(ser),
                  "emitted" if ok else "property `%s` is accepted by %s::configure but never written by serialize_to_properties: lost on round-trip" % (k, short))
-    R.require(rk, "floor:keys", n_keys >= 15, "", "%d accepted property keys checked" % n_keys)
+    R.require(rk, "floor:keys", n_keys >= 12, "", "%d accepted property keys checked" % n_keys)
 
 
 SERDE_STRICT = [
@@ -346,7 +346,7 @@ def registry(R, ctx):
                     if v:
                         got.add(v)
     internal = {"bundler", "replace_referenced_tokens", "shift_token_line"}
-    R.require(rid, "floor:listed", len(listed) >= 32, "", "%d names listed" % len(listed))
+    R.require(rid, "floor:listed", len(listed) >= 30, "", "%d names listed" % len(listed))
     for nme in sorted(listed | parsed | (got - internal)):
         R.ob(rid, "name|" + nme, nme in listed and nme in parsed and nme in got, ctx.where(names_fn),
              "listed=%s parsed=%s get_name=%s" % (nme in listed, nme in parsed, nme in got))
@@ -402,7 +402,7 @@ def skip_default(R, ctx):
                         dconsts = {x.get("def", "").split("::")[-1] for x in thir.walk(thir.body_of(d)) if x.get("k") == "Const"} if d is not None else set()
                         ok = dfn.split("::")[-1] in names or bool(consts_ & dconsts)
                     R.ob(rid, key, ok, where, "custom predicate `%s` vs default `%s`: %s" % (pred, dfn, "compare the same constant" if ok else "not shown to agree"))
-    R.require(rid, "floor", n >= 8, "", "%d skip_serializing_if fields (floor 8)" % n)
+    R.require(rid, "floor", n >= 6, "", "%d skip_serializing_if fields (floor 6)" % n)
 
 
 def _find_local_fn(lib, name):
